@@ -125,6 +125,52 @@ def fmt3(x):
     return float("{:.3}".format(float(x)))
 
 
+def check_minmax_table(out, pname, opts, fields, case, v):
+    """menu's min/max table against the per-box tables of the level headers -> True if a non-finite extremum was involved"""
+    nonfinite_x = False
+    ref = refread.read_plotfile(pname, data=False)
+    levels = [ref["levels"][-1]] if opts.get("finest_lv") else ref["levels"]
+    rows = {}
+    lines = out.split("\n")
+    start = next((i for i, l in enumerate(lines) if "Mins and Maxs" in l), None)
+    table = []
+    if start is not None:
+        caps = 0
+        for l in lines[start + 1:]:
+            if _CAP.match(l):
+                caps += 1
+                if caps == 3:
+                    break
+            elif caps == 2:
+                table.append(l)
+    for line in table:
+        for half in line.split("\t"):
+            m = re.match(r"^(\S.*?)\s+:\s+(\S+)\s+(\S+)\s+(\[.*\])\s*$", half)
+            if m:
+                rows.setdefault(m.group(1), []).append((m.group(2), m.group(3)))
+    for i, f in enumerate(fields):
+        mins = [r[i] for lev in levels for r in lev["mins"]]
+        maxs = [r[i] for lev in levels for r in lev["maxs"]]
+        got = rows.get(f, [])
+        if len(got) != 1:
+            v.append(f"menu min/max table has {len(got)} rows for field {f!r} (fields {fields}, options {case['opts']})")
+            continue
+        try:
+            gmn, gmx = float(got[0][0]), float(got[0][1])
+        except ValueError:
+            v.append(f"menu min/max row of {f!r} is not numeric: {got[0]}")
+            continue
+        anynan = any(math.isnan(x) for x in mins + maxs)
+        if anynan or not all(math.isfinite(x) for x in mins + maxs):
+            nonfinite_x = True
+        emn = [fmt3(np.min(mins))] + ([fmt3(np.nanmin(mins))] if anynan and not all(math.isnan(x) for x in mins) else [])
+        emx = [fmt3(np.max(maxs))] + ([fmt3(np.nanmax(maxs))] if anynan and not all(math.isnan(x) for x in maxs) else [])
+        if not any(_same(gmn, e) for e in emn) or not any(_same(gmx, e) for e in emx):
+            v.append(f"menu min/max row of {f!r}: printed {got[0]}, header tables give min {emn} max {emx} "
+                     f"({'finest level' if opts.get('finest_lv') else 'all levels'})")
+    return nonfinite_x
+
+
 def check_case(case, ctx):
     from amr_kitchen.menu.menu import Menu
     ctx.fresh()
@@ -195,46 +241,7 @@ def check_case(case, ctx):
         elif sb:
             v.append(f"menu lists species {sb} but the header has none")
     if out is not None and (opts.get("min_max") or opts.get("finest_lv")):
-        ref = refread.read_plotfile(pname, data=False)
-        levels = [ref["levels"][-1]] if opts.get("finest_lv") else ref["levels"]
-        rows = {}
-        lines = out.split("\n")
-        start = next((i for i, l in enumerate(lines) if "Mins and Maxs" in l), None)
-        table = []
-        if start is not None:
-            caps = 0
-            for l in lines[start + 1:]:
-                if _CAP.match(l):
-                    caps += 1
-                    if caps == 3:
-                        break
-                elif caps == 2:
-                    table.append(l)
-        for line in table:
-            for half in line.split("\t"):
-                m = re.match(r"^(\S.*?)\s+:\s+(\S+)\s+(\S+)\s+(\[.*\])\s*$", half)
-                if m:
-                    rows.setdefault(m.group(1), []).append((m.group(2), m.group(3)))
-        for i, f in enumerate(fields):
-            mins = [r[i] for lev in levels for r in lev["mins"]]
-            maxs = [r[i] for lev in levels for r in lev["maxs"]]
-            got = rows.get(f, [])
-            if len(got) != 1:
-                v.append(f"menu min/max table has {len(got)} rows for field {f!r} (fields {fields}, options {case['opts']})")
-                continue
-            try:
-                gmn, gmx = float(got[0][0]), float(got[0][1])
-            except ValueError:
-                v.append(f"menu min/max row of {f!r} is not numeric: {got[0]}")
-                continue
-            anynan = any(math.isnan(x) for x in mins + maxs)
-            if anynan or not all(math.isfinite(x) for x in mins + maxs):
-                nonfinite_x = True
-            emn = [fmt3(np.min(mins))] + ([fmt3(np.nanmin(mins))] if anynan and not all(math.isnan(x) for x in mins) else [])
-            emx = [fmt3(np.max(maxs))] + ([fmt3(np.nanmax(maxs))] if anynan and not all(math.isnan(x) for x in maxs) else [])
-            if not any(_same(gmn, e) for e in emn) or not any(_same(gmx, e) for e in emx):
-                v.append(f"menu min/max row of {f!r}: printed {got[0]}, header tables give min {emn} max {emx} "
-                         f"({'finest level' if opts.get('finest_lv') else 'all levels'})")
+        nonfinite_x = check_minmax_table(out, pname, opts, fields, case, v) or nonfinite_x
     if out is not None and opts.get("description") and not opts.get("every"):
         tail = out[out.index("Fields found in file:"):] if "Fields found in file:" in out else ""
         names = [m.group(1) for m in (re.match(r"^(\S+)\s+:\s", l) for l in tail.split("\n")) if m]
@@ -283,6 +290,7 @@ def check_case(case, ctx):
                     if fh.read() != mine:
                         v.append(f"marinating {sib} overwrote {pkl}, the pickle written for {pname}")
             ctx.label("marinate")
+            hist_after_marinate = True
             try:
                 with open(pkl, "rb") as fh:
                     obj = pickle.load(fh)
@@ -310,4 +318,18 @@ def check_case(case, ctx):
                             break
             except Exception as e:
                 v.append(f"unpickled reader is unusable: {type(e).__name__}: {e}")
+    if locals().get("hist_after_marinate") and not v:
+        # history: the plotfile is rewritten under the same name after it was marinated (a restarted run); menu must show
+        # the extrema of what is on disk now, not those of the pickle lying beside it
+        import shutil
+        shutil.rmtree(pname)
+        plot2 = plotgen.Plot(dict(case["spec"], payload=dict(kind="random", seed=977)))
+        plotgen.write(plot2, pname)
+        try:
+            out2 = capture(Menu, pname, min_max=True)
+            check_minmax_table(out2, pname, dict(min_max=True), fields, case, v)
+            if v:
+                v[-1] += " [after the plotfile was rewritten; a pickle of the old one lies beside it]"
+        except BaseException as e:
+            v.append(f"menu raised {type(e).__name__}: {e} on the rewritten plotfile")
     return v
